@@ -230,3 +230,21 @@ func Nontrivial(c Cfg) bool {
 	}
 	return n > 0
 }
+
+// GatedErrChan: the shared error channel is filled / drained by others around the close.
+func GatedErrChan(rng *Rng) (string, Cfg) {
+	c := base(rng, 1)
+	var g idGen
+	c.Ecap = rng.PickInt(1, 2, 3)
+	c.Senders = [][]PktSpec{g.pkts(rng, rng.Range(0, 3), smallSizes)}
+	c.Closers = []bool{rng.Bool(), rng.Bool()}
+	c.Input = inputFrames(rng, rng.Range(0, 2), smallSizes)
+	for k := rng.Range(0, c.Ecap); k > 0; k-- {
+		c.Script = append(c.Script, Dir{DEnv, EvErrFill, 0})
+	}
+	if rng.Bool() {
+		c.Script = append(c.Script, Dir{DEnv, EvErrConsume, 0})
+	}
+	c.Script = append(c.Script, Dir{DRand, rng.Range(5, 60), 0})
+	return "gated-errchan", c
+}
